@@ -2,6 +2,8 @@
    accepts <lanes> <fifo|prio> <labels>      labels: comma separated, "." = none
        a:<job>:<h|n>:<ordhex>:<o|lane>  t:<lane>:<job>  f:<lane>  s:<lane>  c  d  x:<lane>
      -> OK <terminal 0|1> <finished jobs, oldest first, '.' if none>  |  REJECT <index of the first label not enabled>
+   saccepts <labels>                         serial queue; same label spelling (lane and priority fields ignored)
+     -> OK <exited 0|1> <finished, oldest first> <lost jobs: queued behind the sentinel when the worker left>  |  REJECT <index>
    status <raw wait status>                  -> Succeeded | Failed | Cancelled
    launch <cancelled> <closed> <noargs> <none|raw> <waiterr>   -> <spawned 0|1> <status>
    fate e:<code> | s:<sig>:<core 0|1>        -> <raw> <status the property asks for>
@@ -20,6 +22,17 @@ let label_of_string s =
   | ["d"] -> Shutdown
   | ["x"; l] -> Exit (n_of_dec l)
   | _ -> failwith ("label " ^ s)
+let slabel_of_string s =
+  match String.split_on_char ':' s with
+  | ["a"; j; _; _; src] -> SAdd (n_of_dec j, src <> "o")
+  | ["t"; _; j] -> STake (n_of_dec j)
+  | ["f"; _] -> SFinish
+  | ["s"; _] -> SSpawn
+  | ["c"] -> SCancel
+  | ["d"] -> SShutdown
+  | ["x"; _] -> SExit
+  | _ -> failwith ("label " ^ s)
+let nlist l = if l = [] then "." else String.concat "," (List.map dec_of_n l)
 let labels_of_field s = if s = "." then [] else List.map label_of_string (String.split_on_char ',' s)
 let env_of_field s =
   if s = "." then [] else
@@ -37,6 +50,15 @@ let () =
          (match first_reject s0 labels N0 with
           | Some i -> "REJECT " ^ dec_of_n i
           | None -> "ERR accepts/first_reject disagree"))
+    | _ -> "ERR args");
+  register "saccepts" (function [ls] ->
+      let labels = if ls = "." then [] else List.map slabel_of_string (String.split_on_char ',' ls) in
+      (match saccepts sinit labels with
+       | Some s -> "OK " ^ b2s s.ss_exited ^ " " ^ nlist (List.rev s.ss_finished) ^ " " ^ nlist (slost s)
+       | None ->
+         (match sfirst_reject sinit labels N0 with
+          | Some i -> "REJECT " ^ dec_of_n i
+          | None -> "ERR saccepts/sfirst_reject disagree"))
     | _ -> "ERR args");
   register "status" (function [w] -> status_name (status_of_wait (n_of_dec w)) | _ -> "ERR args");
   register "launch" (function [c; cl; na; sp; we] ->
